@@ -3,6 +3,7 @@ package checks
 import (
 	"context"
 	"fmt"
+	"math/big"
 	"time"
 
 	"github.com/bartossh/Computantis/src/accountant"
@@ -53,8 +54,108 @@ func c05SeamProbes(w *core.WorkerCtx, report []string) {
 	w.R.Count("seam_probe_scenarios", 1)
 }
 
+// c05TurnoverBeyondLimit: wallets whose turnover (not their balance) passes 2^64 units - big amounts going round
+// W -> C -> W, with transfers of W to itself at different places of the history. After every step every wallet's
+// balance is asked for: the ledger may refuse to answer (its sums are 64 bit amounts) but a number it does report is
+// the exact net flow of the vertices it holds, recomputed with unbounded integers from a snapshot; and a wallet that
+// proposes one smallest unit more than that must be refused.
+func c05TurnoverBeyondLimit(w *core.WorkerCtx, report []string) {
+	rng := core.Rand(w.Seed, "C05turnover", w.Batch)
+	e18 := ledger.E18
+	const half = uint64(1) << 63
+	xs := []spice.Melange{{Currency: 5, SupplementaryCurrency: e18 - 1}, {SupplementaryCurrency: 1}, {Currency: 1 << 62}, {Currency: uint64(1 + rng.Intn(1000)), SupplementaryCurrency: uint64(rng.Intn(int(e18)))}}
+	for variant := 0; variant < w.Pick(4, 12); variant++ {
+		desc := fmt.Sprintf("c05 turnover beyond 2^64 with transfers to self, variant %d seed=%d batch=%d", variant, w.Seed, w.Batch)
+		w.Mark("%s", desc)
+		world := ledger.NewWorld(rng, w.R, report, 0, desc)
+		if _, err := ledger.Setup(world, ledger.Profile{Nodes: 1, Users: 4, SupplyClass: 1, Delivery: "lockstep"}); err != nil {
+			w.R.Inconc("setup failed: " + err.Error())
+			world.Close()
+			return
+		}
+		n := world.Nodes[0]
+		u := world.Users
+		bank, W, C := u[0], u[1], u[2]
+		x := xs[variant%len(xs)]
+		m := spice.Melange{Currency: half - 1 - uint64(variant/len(xs))}
+		type step struct {
+			from *ledger.Actor
+			to   string
+			amt  spice.Melange
+		}
+		self := step{W, W.Addr, x}
+		steps := []step{{bank, W.Addr, x}}
+		pos := variant % 3 // where the transfer to self stands: before the big amounts, between them, after the first round trip
+		if pos == 0 {
+			steps = append(steps, self)
+		}
+		steps = append(steps, step{bank, W.Addr, m})
+		if pos == 1 {
+			steps = append(steps, self)
+		}
+		steps = append(steps, step{W, C.Addr, m}, step{C, W.Addr, m})
+		if pos == 2 {
+			steps = append(steps, self)
+		}
+		steps = append(steps, step{W, C.Addr, m}, step{C, W.Addr, m}, step{bank, C.Addr, spice.Melange{Currency: 1}}, step{W, W.Addr, x}, step{bank, C.Addr, spice.Melange{SupplementaryCurrency: 1}})
+		judge := func(when string) {
+			s, err := ledger.TakeSnap(n.Book)
+			if err != nil {
+				return
+			}
+			for _, a := range []*ledger.Actor{W, C, u[3]} {
+				in, out := ledger.Flows(a.Addr, func(yield func(*accountant.Vertex)) {
+					for _, l := range s.Live {
+						yield(&l.V)
+					}
+				})
+				exact := in.Sub(in, out)
+				b, err := n.Book.CalculateBalance(world.Ctx, a.Addr)
+				w.R.Eval(1)
+				w.R.Count("c05_balances_of_wallets_with_huge_turnover", 1)
+				if err != nil {
+					world.NontrivFor("C05", fmt.Sprintf("turnover/%d/%s/refused", variant%12, a.Name))
+					continue
+				}
+				world.NontrivFor("C05", fmt.Sprintf("turnover/%d/%s/answered", variant%12, a.Name))
+				if got := ledger.Val(b.Spice); got.Cmp(exact) != 0 || b.Spice.SupplementaryCurrency >= e18 {
+					world.Violate("C05", "ledger-sum-inexact/turnover-beyond-limit", fmt.Sprintf("%s: the node reports %s for wallet %s, the vertices it holds give exactly %s (difference %s)", when, ledger.MelStr(b.Spice), a.Name, exact, new(big.Int).Sub(got, exact)))
+					continue
+				}
+				// one smallest unit more than that is never sealed and kept
+				over := b.Spice
+				if over.SupplementaryCurrency+1 >= e18 {
+					over.Currency, over.SupplementaryCurrency = over.Currency+1, 0
+				} else {
+					over.SupplementaryCurrency++
+				}
+				if over.Currency < b.Spice.Currency {
+					continue
+				}
+				ot := world.NewTrx(a, bank.Addr, over, nil) // (to another wallet: a transfer to self is covered by itself)
+				if ov, err := world.Propose(n, &ot, "one smallest unit more than the wallet holds"); err == nil {
+					for k := 0; k < 2; k++ {
+						mt := world.NewTrx(bank, u[3].Addr, spice.Melange{}, []byte("judge the tip"))
+						world.Propose(n, &mt, "judge")
+					}
+					if _, err := n.Book.ReadVertex(world.Ctx, ov.Hash); err == nil {
+						world.Violate("C05", "ledger-sum-inexact/turnover-beyond-limit/overspend-kept", fmt.Sprintf("%s: wallet %s holds exactly %s and its transfer of %s was sealed and confirmed", when, a.Name, exact, ledger.MelStr(over)))
+					}
+				}
+			}
+		}
+		for i, st := range steps {
+			t := world.NewTrx(st.from, st.to, st.amt, nil)
+			_, err := world.Propose(n, &t, "turnover step")
+			judge(fmt.Sprintf("variant %d after step %d (%s -> %s %s, accepted=%v)", variant, i, st.from.Name, world.NameOf(st.to), ledger.MelStr(st.amt), err == nil))
+		}
+		world.Close()
+	}
+}
+
 func c05LedgerWorker(w *core.WorkerCtx) {
 	c05SeamProbes(w, []string{"C05"})
+	c05TurnoverBeyondLimit(w, []string{"C05"})
 	r := w.R
 	rng := core.Rand(w.Seed, "C05L", w.Batch)
 	e18 := ledger.E18
